@@ -6,7 +6,7 @@ props = [json.loads(l) for l in open(os.path.join(HERE, "properties.jsonl"))]
 TECH_M = "symbolic execution of rustc MIR into SMT (z3; LIA/LRA, nlsat on purified libm symbols with instantiated lemmas), one query per path against an independent oracle"
 TECH_K = "bounded model checking (Kani/CBMC, SAT) of the compiled real code with fully symbolic inputs"
 CHECKS = {
- "C18": ("K", TECH_K, "Kani/CBMC decides, for all 2^64 f64 bit patterns (and all i64/u64 JSON integer literals), that each of the six newtypes accepts exactly the closed range via TryFrom, FromStr and the derive-generated Deserialize, reads back bit-identical and never panics; for every printable-ASCII text of length <= 8 the text route accepts exactly what the float grammar + range allow (grammar model of std's parser, counterexample strings replayed against std's real parser).",
+ "C18": ("K", TECH_K, "Kani/CBMC decides, for all 2^64 f64 bit patterns (and all i64/u64 JSON integer literals), that each of the six newtypes accepts exactly the closed range via TryFrom, FromStr and the derive-generated Deserialize, reads back bit-identical and never panics; for every text of <= 40 bytes made of ASCII, 2-byte and 3-byte UTF-8 characters the text route never panics and accepts only in-range parsed values (number parser = any outcome); for every printable-ASCII text of length <= 8 the text route accepts exactly what the float grammar + range allow (grammar model of std's parser, counterexample strings replayed against std's real parser).",
          "std's decimal->f64 parser and serde_json's tokenizer are stubbed by 'any f64'; error-message formatting stubbed; composite documents not covered."),
  "C17": ("M", TECH_M, "z3 decides, per path of the symbolically executed MIR of HijriDate::from and helpers, that every Gregorian date (quick: years 1..3000, thorough: 1..9999) converts to the valid tabular Hijri date with the same fixed day number (relational integer oracle), correct weekday, no overflow/panic, accessors total; loops unrolled to 720 with unwinding assertion.",
          "chrono year()/ordinal() model and the f64->integer transfer argument are trusted (stated in evidence); Display formatting outside the claim."),
